@@ -141,7 +141,7 @@ def payload_docs():
                     t[1] = t[1] + str(i)
             yield [['interface', 'I', types, [['e', 'in', ['void'], []]]]]
     # instances / bindings
-    ends = [['p', None], ['p', 'i']]
+    ends = [['p', None], ['p', 'i'], ['*', None]]       # '*': the wildcard end-point of an injection binding
     bind_opts = [[a, b] for a in ends for b in ends]
     for ni in range(0, 3):
         for nb in range(0, 3):
